@@ -16,8 +16,9 @@ VARIABLES l, items, beg
 vars == <<l, items, beg>>
 
 Report(ok, what) == IF ok THEN TRUE ELSE PrintT(what)
-RECURSIVE Sum(_)
-Sum(s) == IF s = <<>> THEN 0 ELSE Head(s)[2] + Sum(Tail(s))
+RECURSIVE SumTo(_, _)
+SumTo(s, i) == IF i = 0 THEN 0 ELSE SumTo(s, i - 1) + s[i][2]
+Sum(s) == SumTo(s, Len(s))
 Body(s, sep) == Sum(s) + sep * (IF Len(s) > 1 THEN Len(s) - 1 ELSE 0)
 RECURSIVE Pow256(_)
 Pow256(w) == IF w >= 4 THEN 2147483647 ELSE IF w = 0 THEN 1 ELSE 256 * Pow256(w - 1)   \* TLC integers are 32 bit
